@@ -95,6 +95,7 @@ def handleVCfg (acc : Acc) (h : VHist) (kv : KV) (line : String) : Acc × VHist 
       fluct := (match kv.get? "pfluct" with | some t => t.toNat?.getD 0 | none => kv.nat "fluct") }
   let m := Vamm.instantiate env 3 msg
   let acc := { acc with checked := acc.checked + 1 }
+  let acc := match m with | .error e => acc.cover ("vamm.instantiate:" ++ errTagOf e) | .ok _ => acc.cover "vamm.instantiate:ok"
   let implOk := kv.bool "ok"
   if implOk != isOk m then
     (reportMany acc "DISAGREE" ["C20", "C01"] "vamm-instantiate-accept" line, { h with alive := false })
